@@ -484,7 +484,7 @@ def least_squares(x, y, func, priors=None, silent=False, **kwargs):
 
     result = []
     for i in range(n_parms):
-        result.append(derived_observable(lambda x_all, **kwargs: (x_all[0] + np.finfo(np.float64).eps) / (y_all[0].value + np.finfo(np.float64).eps) * fitp[i], list(y_all) + loc_priors, man_grad=list(deriv_y[i])))
+        result.append(derived_observable(lambda x_all, **kwargs: 0 * (x_all[0] + np.finfo(np.float64).eps) + fitp[i], list(y_all) + loc_priors, man_grad=list(deriv_y[i])))
 
     output.fit_parameters = result
 
@@ -698,7 +698,7 @@ def total_least_squares(x, y, func, silent=False, **kwargs):
 
     result = []
     for i in range(n_parms):
-        result.append(derived_observable(lambda my_var, **kwargs: (my_var[0] + np.finfo(np.float64).eps) / (x.ravel()[0].value + np.finfo(np.float64).eps) * out.beta[i], list(x.ravel()) + list(y), man_grad=list(deriv_x[i]) + list(deriv_y[i])))
+        result.append(derived_observable(lambda my_var, **kwargs: 0 * (my_var[0] + np.finfo(np.float64).eps) + out.beta[i], list(x.ravel()) + list(y), man_grad=list(deriv_x[i]) + list(deriv_y[i])))
 
     output.fit_parameters = result
 
